@@ -16,7 +16,7 @@
 (* Verdict per record (v):                                                  *)
 (*   agree            obs = TrueReport (the ideal report) and Correct        *)
 (*   agree_window     obs = the report of the window the code keeps, Correct *)
-(*   known_d9 / known_d13 / known_tok / known_yaml / known_stream   obs is what the implementation-level *)
+(*   known_d13 / known_tok / known_yaml / known_stream   obs is what the implementation-level *)
 (*                    model predicts, the property fails, and the scenario   *)
 (*                    lies in the structural class of that finding           *)
 (*   correct_not_impl Correct, differs from the implementation model inside  *)
@@ -54,7 +54,6 @@ JsonVerdict(rec) ==
            impl == ReportOfView(t, view)
            tru == TrueReport(t, err)
            corr == Correct(t, err, ObsRec(o))
-           d9 == rec.tr = "pipe" /\ InDiscarded(view, err, N)
            d13 == LoneCRSkipped(t, view)
            info == [view |-> view, impl |-> Pub(impl), true |-> Pub(tru), correct |-> corr]
        IN IF Width(impl.ex) < 0 \/ Width(tru.ex) < 0 THEN [v |-> "oom"]
@@ -62,9 +61,8 @@ JsonVerdict(rec) ==
             (IF corr THEN [v |-> "agree", line |-> tru.line, col |-> tru.col, exlen |-> Len(tru.ex)] ELSE [v |-> "spec_error", info |-> info])
           ELSE IF corr /\ o.name = rec.name THEN
             (IF SameJson(o, impl) THEN [v |-> "agree_window", line |-> impl.line, col |-> impl.col, exlen |-> Len(impl.ex)]
-             ELSE IF d9 \/ d13 \/ (rec.tr = "pipe" /\ view.a > 0) THEN [v |-> "correct_not_impl", info |-> info]
+             ELSE IF d13 \/ (rec.tr = "pipe" /\ view.a > 0) THEN [v |-> "correct_not_impl", info |-> info]
              ELSE [v |-> "mismatch", why |-> "report differs from the specification (excerpt rule)", info |-> info])
-          ELSE IF SameJson(o, impl) /\ o.name = rec.name /\ d9 THEN [v |-> "known_d9", info |-> info]
           ELSE IF o.name = rec.name /\ D13Signature(t, err, ObsRec(o)) THEN [v |-> "known_d13", info |-> info]
           ELSE [v |-> "mismatch", why |-> IF SameJson(o, impl) THEN "the code's window report violates the property outside the known classes"
                                           ELSE "report differs from the specification", info |-> info]
